@@ -816,6 +816,8 @@ def replay(ctx, data, from_corpus=False):
                             if spec.get('encoding') == 'csc' else None,
                             tmp_dir=spec.get('tmp_dir_given', True),
                             traced_all=failure != 'unwritable_output',
+                            then_success=not (from_corpus and failure ==
+                                              'unwritable_output'),
                             obsm='/obsm' in hist)
         else:
             history_stages(ctx, rng, spec.get('encoding', 'csr')
